@@ -21,8 +21,8 @@
   call on the longer buffer returns OK at the new end and an object that differs from the first one ONLY in the body
   length, len(Buf) and the raw-message length (`BodyGrew`); the new body is the old body followed by the appended
   bytes; and the result does change when bytes are appended — so the exemption is necessary.
-  NOT yet proved: the URI parameter and header list wrappers (loops over ParseTokenParam; stand-alone parsers
-  not used by ParseSIPMsg).
+  `stable_uriparams`, `stable_urihdrs`: the URI parameter / header list wrappers (without the end-of-input option,
+  legitimate list = clean unused slots; new and reset lists qualify).
 -/
 import Sipsp.Proofs.CallID
 import Sipsp.Proofs.UInt
@@ -31,6 +31,7 @@ import Sipsp.Proofs.NameAddrL1b
 import Sipsp.Proofs.MsgL1
 import Sipsp.Proofs.TokParamL1
 import Sipsp.Proofs.MsgL1Body
+import Sipsp.Proofs.UriListsL
 
 namespace Sipsp.C03
 open Sipsp
@@ -113,6 +114,20 @@ theorem stable_tokparam (b s : Buf) (o : Nat) (p : PTokParam) (flags : Nat)
     (hf : hasFlag flags POptInputEndF = false) {o' : Nat} {e : Err} {p' : PTokParam}
     (h : parseTokenParam b o p flags = (o', e, p')) (he : e ≠ .moreBytes) :
     parseTokenParam (b ++ s) o p flags = (o', e, p') := parseTokenParam_stable b s o p flags hf h he
+
+theorem stable_uriparams (b s : Buf) (offs : Nat) (l : URIParamsLst) (flags : Nat)
+    (hf : hasFlag flags POptInputEndF = false) (hok : plOK b l) (ho : offs ≤ b.size) {o' n' : Nat} {e : Err}
+    {l' : URIParamsLst} (h : parseAllURIParams b offs l flags = (o', n', e, l')) (he : e ≠ .moreBytes) :
+    parseAllURIParams (b ++ s) offs l flags = (o', n', e, l') := parseAllURIParams_stable b s offs l flags hf hok ho h he
+
+theorem stable_urihdrs (b s : Buf) (offs : Nat) (l : URIHdrsLst) (flags : Nat)
+    (hf : hasFlag flags POptInputEndF = false) (hok : hlClean l) (ho : offs ≤ b.size) {o' n' : Nat} {e : Err}
+    {l' : URIHdrsLst} (h : parseAllURIHdrs b offs l flags = (o', n', e, l')) (he : e ≠ .moreBytes) :
+    parseAllURIHdrs (b ++ s) offs l flags = (o', n', e, l') := parseAllURIHdrs_stable b s offs l flags hf hok ho h he
+
+/-- new lists of any capacity are legitimate -/
+theorem new_lists_ok (b : Buf) (k : Nat) :
+    plOK b { params := Array.replicate k {} } ∧ hlClean { hdrs := Array.replicate k {} } := ⟨plOK_new b k, hlClean_new k⟩
 
 /-! ### the exempted case: body = rest of the buffer -/
 
